@@ -502,6 +502,9 @@ func runScenario(sc *scenario) (lines []string, direct []string, quiescent bool)
 			if p := d.conn.brokerRecv(time.Duration(s.n) * time.Millisecond); p != nil {
 				d.rec.directf("direct ackheld FAIL %s written while the application callback had not returned", hx.PktText(p))
 			}
+		case "sleep":
+			// give other goroutines the chance to run into (or past) what they must not pass; orders nothing
+			time.Sleep(time.Duration(s.n) * time.Millisecond)
 		case "bdrain":
 			for d.conn.brokerRecv(time.Millisecond) != nil {
 			}
@@ -652,6 +655,74 @@ func directClauses(rec *Rec) {
 			if ev[1] == "i" && p[0] == "publish" && !early {
 				cur.expectCb = p[2] + "," + p[3] + "," + p[4] + "," + p[5]
 				cur.expectFrom = strings.Join(ev, " ")
+			}
+		}
+	}
+	// a future reported cancelled before the client came to rest although nothing had ended its connection:
+	// no conn.Close, no failed Send/Receive, no Close/Disconnect call on that Client up to that point
+	{
+		type region struct {
+			calls    map[string]bool
+			over     bool
+			rested   bool
+			retFut   map[string]bool
+			subFails bool
+		}
+		var regs []*region
+		var cr *region
+		for _, l := range lines {
+			f := strings.Fields(l)
+			if len(f) >= 4 && f[0] == "mark" && f[3] == "precleanup" && cr != nil {
+				cr.rested = true
+				continue
+			}
+			if len(f) < 5 || f[0] != "ev" {
+				continue
+			}
+			ev := f[4:]
+			if ev[0] == "new" {
+				cr = &region{calls: map[string]bool{}, retFut: map[string]bool{}}
+				regs = append(regs, cr)
+				continue
+			}
+			if cr == nil {
+				continue
+			}
+			switch ev[0] {
+			case "call":
+				cr.calls[ev[1]] = true
+				if ev[2] == "close" || ev[2] == "disc" {
+					cr.over = true
+				}
+			case "ret":
+				if ev[2] == "fut" {
+					cr.retFut[ev[1]] = true
+				}
+			case "connclose", "rxerr":
+				cr.over = true
+			case "tx", "save", "delete", "lookup", "all", "reset", "dial":
+				if ev[len(ev)-1] == "fail" || ev[len(ev)-1] == "err" {
+					cr.over = true
+				}
+			case "cb":
+				if ev[len(ev)-1] == "fail" {
+					cr.over = true
+				}
+			case "rx":
+				if strings.HasPrefix(ev[1], "suback:") && strings.Contains(ev[1], "128") {
+					cr.over = true // a refused subscription cancels its future and closes the client
+				}
+				if strings.HasPrefix(ev[1], "connack:") && !strings.HasSuffix(ev[1], ":0") {
+					cr.over = true
+				}
+			case "fut":
+				if len(ev) >= 3 && ev[2] == "0" {
+					for _, rg := range regs {
+						if rg.retFut[ev[1]] && rg == cr && !rg.rested && !rg.over {
+							fail("direct cancelled FAIL the future of call=%s is reported cancelled although its request went out and nothing has ended the connection (no Close, no failed Send/Receive, no Close/Disconnect call)", ev[1])
+						}
+					}
+				}
 			}
 		}
 	}
